@@ -1,0 +1,123 @@
+//go:build verif && (verif_all || verif_c16)
+// +build verif
+// +build verif_all verif_c16
+
+package gocql
+
+// Verification hooks (build tag `verif`) for the refresh-debouncer part of C16 ("requests arriving DURING a
+// refresh"): a REAL refreshDebouncer (newRefreshDebouncer, one hour interval so that the timer never fires by
+// itself) whose refresh function reports every start and blocks until the harness releases it, a way to let
+// logical time pass (the armed timer is made to expire now; a timer that is not armed is left alone), and a view
+// of the debouncer's channels. Add-only thin wrappers.
+
+import (
+	"sync/atomic"
+	"time"
+)
+
+// VerifRefreshDeb drives a real refreshDebouncer.
+type VerifRefreshDeb struct {
+	d       *refreshDebouncer
+	started chan int
+	release chan struct{}
+	quit    chan struct{}
+	n       int32
+}
+
+// NewVerifRefreshDeb: refreshFn sends its ordinal (1, 2, …) on Started() and returns when Release() is called.
+func NewVerifRefreshDeb() *VerifRefreshDeb {
+	v := &VerifRefreshDeb{started: make(chan int, 1024), release: make(chan struct{}), quit: make(chan struct{})}
+	v.d = newRefreshDebouncer(time.Hour, func() error {
+		v.started <- int(atomic.AddInt32(&v.n, 1))
+		select {
+		case <-v.release:
+		case <-v.quit:
+		}
+		return nil
+	})
+	return v
+}
+
+func (v *VerifRefreshDeb) Debounce()                { v.d.debounce() }
+func (v *VerifRefreshDeb) RefreshNow() <-chan error { return v.d.refreshNow() }
+func (v *VerifRefreshDeb) Started() <-chan int      { return v.started }
+
+// Starts returns the number of refreshFn calls started so far.
+func (v *VerifRefreshDeb) Starts() int { return int(atomic.LoadInt32(&v.n)) }
+
+// Release lets the running refreshFn return; false if none took the release within the patience.
+func (v *VerifRefreshDeb) Release(patience time.Duration) bool {
+	select {
+	case v.release <- struct{}{}:
+		return true
+	case <-time.After(patience):
+		return false
+	}
+}
+
+// Stop stops the debouncer and unblocks a refreshFn that is still running.
+func (v *VerifRefreshDeb) Stop() {
+	close(v.quit)
+	v.d.stop()
+}
+
+func verifTimerRunning(d *refreshDebouncer) bool {
+	if d.timer.Stop() {
+		d.timer.Reset(d.interval)
+		return true
+	}
+	return false
+}
+
+// State (taken under the debouncer's mutex): is the timer running, does timer.C hold a value, does refreshNowCh
+// hold a token, is there a broadcaster. (A running timer is re-armed with the debouncer's interval.)
+func (v *VerifRefreshDeb) State() (timer, fired, tok, bc bool) {
+	d := v.d
+	d.mu.Lock()
+	defer d.mu.Unlock()
+	return verifTimerRunning(d), len(d.timer.C) > 0, len(d.refreshNowCh) > 0, d.broadcaster != nil
+}
+
+// Fired tells whether timer.C holds a value (without touching the timer).
+func (v *VerifRefreshDeb) Fired() bool {
+	d := v.d
+	d.mu.Lock()
+	defer d.mu.Unlock()
+	return len(d.timer.C) > 0
+}
+
+// Fire lets time pass until the debounce timer expires: a running timer is made to expire now; a timer that is not
+// running is not touched. It returns whether the timer was running.
+func (v *VerifRefreshDeb) Fire() bool {
+	d := v.d
+	d.mu.Lock()
+	defer d.mu.Unlock()
+	if d.timer.Stop() {
+		d.timer.Reset(1)
+		return true
+	}
+	return false
+}
+
+// FireExpired tells whether the timer that Fire made expire has expired; a timer that is still running is made to
+// expire again.
+func (v *VerifRefreshDeb) FireExpired() bool {
+	d := v.d
+	d.mu.Lock()
+	defer d.mu.Unlock()
+	if d.timer.Stop() {
+		d.timer.Reset(1)
+		return false
+	}
+	return true
+}
+
+// VerifRingRefreshPending tells whether a debounced ring refresh request of the session is pending: the refresh
+// timer is running (it is re-armed with the debouncer's interval, as one more debounce() at this instant would
+// do) or its channel holds a value.
+func VerifRingRefreshPending(s *Session) bool {
+	d := s.ringRefresher
+	d.mu.Lock()
+	defer d.mu.Unlock()
+	return verifTimerRunning(d) || len(d.timer.C) > 0
+}
